@@ -75,10 +75,10 @@ func formatByName(n string) (format, bool) {
 // Adler-32 and the 4-byte CRC). They only steer which sizes are explored; the
 // oracle never refers to them. probeThresholds() re-derives them by observation.
 const (
-	codeCapFirst = 0xFFF8 - 0x30        // 65480 payload bytes in the first IDAT's stored block
-	codeCapLater = 0xFFF8 - 0x0D        // 65515 in every later one
-	codeFitFirst = 0x10000 - 20 - 0x30  // 65468: largest final first block after which IEND still fits
-	codeFitLater = 0x10000 - 20 - 0x0D  // 65503: same for a later block
+	codeCapFirst = 0xFFF8 - 0x30       // 65480 payload bytes in the first IDAT's stored block
+	codeCapLater = 0xFFF8 - 0x0D       // 65515 in every later one
+	codeFitFirst = 0x10000 - 20 - 0x30 // 65468: largest final first block after which IEND still fits
+	codeFitLater = 0x10000 - 20 - 0x0D // 65503: same for a later block
 )
 
 // ---- calls and contents -----------------------------------------------------
@@ -559,9 +559,13 @@ func runSeq(st *wstate, calls []Call, wantHash bool) (res []callResult, failedAt
 
 var reportMu sync.Mutex
 
-// explore runs a sequence and reports a violation, with a minimised witness and
-// a root-cause signature: clause + format + size class, and ":only-after-reuse"
-// when the same call is fine on a fresh Encoder.
+// explore runs a sequence and reports a violation with a minimised witness and a
+// root-cause signature: operation + broken clause + abstract shape of the input.
+// The shape is the size class of the image for a defect that shows on a fresh
+// Encoder (the format and the concrete size are in the witness only), or the
+// history class when the same call is fine on a fresh Encoder:
+// ":only-after-reuse" (an earlier successful Encode is enough) or
+// ":only-after-failed-encode" (needs an earlier Encode whose Writer failed).
 func explore(r *ev.Run, st *wstate, calls []Call, wantHash bool) []callResult {
 	res, at := runSeq(st, calls, wantHash)
 	if at < 0 {
@@ -571,29 +575,48 @@ func explore(r *ev.Run, st *wstate, calls []Call, wantHash bool) []callResult {
 	c := calls[at]
 	f, _ := formatByName(c.Format)
 	wit := witness{Calls: calls[:at+1], FailingCall: at, Clause: fl.Clause, Detail: fl.Detail}
-	suffix := ""
+	shape := sizeClass(rawLen(f, c))
 	if at > 0 {
 		tmp := newWstate()
+		same := func(seq []Call) (string, bool) { // does seq break the same clause at its last call?
+			rr, k := runSeq(tmp, seq, false)
+			if k == len(seq)-1 && rr[k].fail.Clause == fl.Clause {
+				return rr[k].fail.Detail, true
+			}
+			return "", false
+		}
 		solo := c
 		solo.FailAtWrite = 0
-		r2, at2 := runSeq(tmp, []Call{solo}, false)
-		if at2 == 0 && r2[0].fail.Clause == fl.Clause {
-			wit = witness{Calls: []Call{solo}, FailingCall: 0, Clause: fl.Clause, Detail: r2[0].fail.Detail, Note: "found inside a longer call sequence; fails on a fresh Encoder too"}
+		if d, ok := same([]Call{solo}); ok {
+			wit = witness{Calls: []Call{solo}, FailingCall: 0, Clause: fl.Clause, Detail: d, Note: "found inside a longer call sequence; fails on a fresh Encoder too"}
 		} else {
-			suffix = ":only-after-reuse"
-			if calls[at-1].FailAtWrite > 0 {
-				suffix = ":only-after-failed-encode"
+			shape = "only-after-reuse"
+			hist := append([]Call{}, calls[:at+1]...)
+			injected := false
+			for i := range hist {
+				injected = injected || hist[i].FailAtWrite > 0
+			}
+			if injected {
+				clean := append([]Call{}, hist...)
+				for i := range clean {
+					clean[i].FailAtWrite = 0
+				}
+				if d, ok := same(clean); ok {
+					hist = clean
+					wit = witness{Calls: hist, FailingCall: at, Clause: fl.Clause, Detail: d, Note: "the injected write error is not needed"}
+				} else {
+					shape = "only-after-failed-encode"
+				}
 			}
 			// shorten the history to the last predecessor if that is enough
-			if at > 1 {
-				r3, at3 := runSeq(tmp, calls[at-1:at+1], false)
-				if at3 == 1 && r3[1].fail.Clause == fl.Clause {
-					wit = witness{Calls: calls[at-1 : at+1], FailingCall: 1, Clause: fl.Clause, Detail: r3[1].fail.Detail}
+			if len(hist) > 2 {
+				if d, ok := same(hist[len(hist)-2:]); ok {
+					wit = witness{Calls: hist[len(hist)-2:], FailingCall: 1, Clause: fl.Clause, Detail: d}
 				}
 			}
 		}
 	}
-	sig := fmt.Sprintf("Encode:%s:%s:%s%s", fl.Clause, c.Format, sizeClass(rawLen(f, c)), suffix)
+	sig := fmt.Sprintf("Encode:%s:%s", fl.Clause, shape)
 	what := fmt.Sprintf("Encode(%s %dx%d stride=row+%d content=%s) as call #%d of %d on one Encoder: %s: %s", c.Format, c.W, c.H, c.StrideExtra, short(c.Content), at+1, len(calls), fl.Clause, fl.Detail)
 	r.Violation(sig, what, wit)
 	return res
@@ -780,7 +803,9 @@ func main() {
 	}
 	r := ev.Start("C19", "exploration")
 	r.SetBudget(8*time.Minute, 45*time.Minute)
+	tsc := time.Now()
 	selfCheck()
+	r.Add("selfcheck_ms", time.Since(tsc).Milliseconds())
 	T := r.Thorough()
 	p := newPool(r)
 	t0 := time.Now()
@@ -797,7 +822,7 @@ func main() {
 	// -- thresholds ---------------------------------------------------------
 	nThr := 3
 	if T {
-		nThr = 5
+		nThr = 6
 	}
 	th := probeThresholds(r, p.st[0], nThr)
 	phase("probe")
@@ -1004,13 +1029,13 @@ func main() {
 	// -- sequences ----------------------------------------------------------
 	{
 		reps := []Call{
-			{Format: "gray8", W: 1, H: 1, Content: "pos:10"},                                    // tiny
-			{Format: "nrgba16", W: 3, H: 2, StrideExtra: 5, Content: "pos:11"},                   // small, padded
-			{Format: "gray8", W: th.fitFirst - 1, H: 1, Content: "pos:12"},                       // IEND just fits: the Write fills the buffer
-			{Format: "gray16", W: (th.capFirst - 1) / 2, H: 1, Content: "pos:13"},                // one full IDAT, IEND separate
-			{Format: "gray8", W: th.capFirst, H: 1, Content: "uniform:255"},                      // one byte spills into a 2nd IDAT
-			{Format: "rgbx8", W: 7, H: (th.capFirst + th.fitLater) / 22, Content: "pos:15"},      // 2 IDATs, ends near the IEND point
-			{Format: "nrgba8", W: 5, H: (th.capFirst+2*th.capLater)/21 + 1, Content: "pos:16"},   // just past the 3rd threshold: 4 IDATs
+			{Format: "gray8", W: 1, H: 1, Content: "pos:10"},                                                 // tiny
+			{Format: "nrgba16", W: 3, H: 2, StrideExtra: 5, Content: "pos:11"},                               // small, padded
+			{Format: "gray8", W: th.fitFirst - 1, H: 1, Content: "pos:12"},                                   // IEND just fits: the Write fills the buffer
+			{Format: "gray16", W: (th.capFirst - 1) / 2, H: 1, Content: "pos:13"},                            // one full IDAT, IEND separate
+			{Format: "gray8", W: th.capFirst, H: 1, Content: "uniform:255"},                                  // one byte spills into a 2nd IDAT
+			{Format: "rgbx8", W: 7, H: (th.capFirst + th.fitLater) / 22, Content: "pos:15"},                  // 2 IDATs, ends near the IEND point
+			{Format: "nrgba8", W: 5, H: (th.capFirst+2*th.capLater)/21 + 1, Content: "pos:16"},               // just past the 3rd threshold: 4 IDATs
 			{Format: "rgbx16", W: 8, H: (th.capFirst + th.capLater) / 49, StrideExtra: 1, Content: "pos:17"}, // 2 IDATs, 2nd almost full
 		}
 		if T {
@@ -1149,10 +1174,10 @@ func main() {
 		Exhaustive: true,
 		Extra: map[string]any{
 			"distinct_framing_outcomes(format,idat count,iend kind,write count)": outcomes,
-			"thresholds_from_code_reading": map[string]int{"first_block_capacity": codeCapFirst, "later_block_capacity": codeCapLater, "iend_fits_up_to_first": codeFitFirst, "iend_fits_up_to_later": codeFitLater},
-			"thresholds_observed":          map[string]int{"first_block_capacity": th.capFirst, "later_block_capacity": th.capLater, "iend_fits_up_to_first": th.fitFirst, "iend_fits_up_to_later": th.fitLater},
-			"thresholds_observed_match_code_reading": th.matchCode,
-			"thresholds_explored":                    nThr,
+			"thresholds_from_code_reading":                                       map[string]int{"first_block_capacity": codeCapFirst, "later_block_capacity": codeCapLater, "iend_fits_up_to_first": codeFitFirst, "iend_fits_up_to_later": codeFitLater},
+			"thresholds_observed":                                                map[string]int{"first_block_capacity": th.capFirst, "later_block_capacity": th.capLater, "iend_fits_up_to_first": th.fitFirst, "iend_fits_up_to_later": th.fitLater},
+			"thresholds_observed_match_code_reading":                             th.matchCode,
+			"thresholds_explored":                                                nThr,
 		},
 	}, []string{
 		"image/png (Go standard library) is the 'standard decoder' of the property; it verifies chunk CRCs and the zlib Adler-32",
